@@ -88,6 +88,31 @@ func (e *Ev) evGhostCall(x *ast.CallExpr) Val {
 		}
 		sub.bound[kid.Name] = VInt{kn}
 		body := sub.boolOf(sub.ev(x.Args[3]), x.Args[3])
+		var bases []string
+		fx.prog.allAbsBases(parseSexpr(body), kn, &bases)
+		if len(bases) > 3 {
+			bases = bases[:3]
+		}
+		var versions []Term
+		for _, o := range bases {
+			nb, nlo, nhi, ok := fx.prog.absolutizeWith(body, lo, hi, kn, o)
+			if !ok {
+				continue
+			}
+			r := sAnd(sLe(nlo, kn), sLt(kn, nhi))
+			if id.Name == "forall" {
+				versions = append(versions, fmt.Sprintf("(forall ((%s Int)) %s)", kn, sImp(r, nb)))
+			} else {
+				versions = append(versions, fmt.Sprintf("(exists ((%s Int)) %s)", kn, sAnd(r, nb)))
+			}
+		}
+		if len(versions) > 0 {
+			// the renderings are logically equivalent; each offers a different trigger
+			if id.Name == "forall" {
+				return VBool{sAnd(versions...)}
+			}
+			return VBool{sOr(versions...)}
+		}
 		rng := sAnd(sLe(lo, kn), sLt(kn, hi))
 		if id.Name == "forall" {
 			return VBool{fmt.Sprintf("(forall ((%s Int)) %s)", kn, sImp(rng, body))}
@@ -167,13 +192,13 @@ func (e *Ev) evGhostCall(x *ast.CallExpr) Val {
 		if p.Lit != nil {
 			var cs []Term
 			for i := 0; i < len(*p.Lit); i++ {
-				cs = append(cs, fmt.Sprintf("(= (select %s (+ %s %s %d)) %d)", s.B, s.O, k, i, (*p.Lit)[i]))
+				cs = append(cs, fmt.Sprintf("(= (select %s %s) %d)", s.B, sAdd(s.O, sAdd(k, fmt.Sprintf("%d", i))), (*p.Lit)[i]))
 			}
 			return VBool{sAnd(cs...)}
 		}
 		quantSeq++
 		j := fmt.Sprintf("j!%d", quantSeq)
-		return VBool{fmt.Sprintf("(forall ((%s Int)) (=> (and (<= 0 %s) (< %s %s)) (= (select %s (+ %s %s %s)) (select %s (+ %s %s)))))", j, j, j, p.L, s.B, s.O, k, j, p.B, p.O, j)}
+		return VBool{fmt.Sprintf("(forall ((%s Int)) (=> (and (<= %s %s) (< %s (+ %s %s))) (= (select %s (+ %s (+ %s (- %s %s)))) (select %s %s))))", j, p.O, j, j, p.O, p.L, s.B, s.O, k, j, p.O, p.B, j)}
 	case "inset":
 		// inset(c, chars): the byte c occurs in chars
 		c := e.intOf(arg(0), x)
@@ -398,7 +423,7 @@ func (p *Prog) specFuncDef(sf *SpecFunc) (def string, uses map[string]bool, lang
 			hasStr = true
 		}
 	}
-	if hasStr && !sf.Rec && !strings.Contains(body, "(forall ") && !strings.Contains(body, "(exists ") {
+	if hasStr && !sf.Rec && !p.bodyHasQuant(body, fx.specUsed) {
 		// opaque encoding: the application itself is the trigger of quantifiers over positions
 		var sorts, names []string
 		for _, pa := range sf.Params {
@@ -459,4 +484,26 @@ func (e *Ev) sameVal(a, b Val, n ast.Node) Term {
 	}
 	e.unsupp(n, "same() over %T and %T", a, b)
 	return ""
+}
+
+// bodyHasQuant reports whether a spec function body contains a quantifier, directly or through the
+// macros it uses.
+func (p *Prog) bodyHasQuant(body string, uses map[string]bool) bool {
+	if strings.Contains(body, "(forall ") || strings.Contains(body, "(exists ") {
+		return true
+	}
+	for u := range uses {
+		sf, ok := p.spec.Funcs[u]
+		if !ok || sf.Rec || sf.Uninterpreted {
+			continue
+		}
+		def, uu, _, _ := p.specFuncDef(sf)
+		if strings.HasPrefix(def, "(declare-fun") {
+			continue // opaque: quantifier-free by construction
+		}
+		if p.bodyHasQuant(def, uu) {
+			return true
+		}
+	}
+	return false
 }
